@@ -83,6 +83,19 @@ class FactError(Exception):
     pass
 
 
+def lock_versions(repo):
+    """package -> sorted versions pinned by the analysed tree's Cargo.lock (part of the hashed input)"""
+    out = {}
+    try:
+        txt = open(os.path.join(repo, "Cargo.lock")).read()
+    except OSError:
+        return out
+    import re as _re
+    for m in _re.finditer(r'\[\[package\]\]\s*name = "([^"]+)"\s*version = "([^"]+)"', txt):
+        out.setdefault(m.group(1), []).append(m.group(2))
+    return {k: sorted(v) for k, v in out.items()}
+
+
 def produce(config="default", repo=None, target_dir=None, quiet=True):
     """Run the driver; returns (dir with <crate>.json files, meta)."""
     repo = repo or REPO
@@ -92,16 +105,20 @@ def produce(config="default", repo=None, target_dir=None, quiet=True):
     fdir = os.path.join(CACHE, "facts", key)
     meta_p = os.path.join(fdir, "meta.json")
     if os.path.exists(meta_p):
-        try:
-            os.utime(fdir, None)
-        except OSError:
-            pass
-        return fdir, json.load(open(meta_p))
+        m_ = json.load(open(meta_p))
+        if "lock_versions" in m_:
+            try:
+                os.utime(fdir, None)
+            except OSError:
+                pass
+            return fdir, m_
     lock = open(os.path.join(CACHE, "lock"), "w")
     fcntl.flock(lock, fcntl.LOCK_EX)
     try:
         if os.path.exists(meta_p):
-            return fdir, json.load(open(meta_p))
+            m_ = json.load(open(meta_p))
+            if "lock_versions" in m_:
+                return fdir, m_
         t0 = time.time()
         target = target_dir or os.path.join(CACHE, "target")
         os.makedirs(target, exist_ok=True)
@@ -144,7 +161,7 @@ def produce(config="default", repo=None, target_dir=None, quiet=True):
                 raise FactError("fact file for crate %s does not carry this run's nonce" % c)
             crates[c] = os.path.getsize(p)
         meta = {"key": key, "config": config, "nonce": nonce, "wall_s": round(time.time() - t0, 2),
-                "crates": crates, "cmd": " ".join(cmd)}
+                "crates": crates, "cmd": " ".join(cmd), "lock_versions": lock_versions(repo)}
         with open(os.path.join(tmp, "meta.json"), "w") as fh:
             json.dump(meta, fh)
         os.makedirs(os.path.dirname(fdir), exist_ok=True)
